@@ -1,6 +1,6 @@
 """Property -> rules table."""
 
-from .rules import inplace, maps, exponent, decomp, threads, evo, tebd, record, iso, optflow, registries, dmrg, bp, linalg, symmetry, gating, circuit, capguard, order, opalgebra, memo, envs, caches
+from .rules import inplace, maps, exponent, decomp, threads, evo, tebd, record, iso, optflow, registries, dmrg, bp, linalg, symmetry, gating, circuit, capguard, order, opalgebra, memo, envs, caches, kronalg
 import functools
 
 COMMON_ASSUMPTIONS = [
@@ -65,6 +65,27 @@ REGISTRY = {
             "local expectation / reduced state, the totality of the route dispatchers, the non-mutation discipline of the "
             "routes that take `inplace`, and (for the 1D canonical routes) the record rules of C08. Does NOT decide agreement "
             "with the dense answer, Hermiticity, site-ordering or operator-transposition conventions (value-level)."
+        ),
+        "assumptions": COMMON_ASSUMPTIONS,
+    },
+    "C15": {
+        "rules": [
+            P(optflow.rule_option_delivery, opts=("ownership",), modules=("quimb.core", "quimb.gen.operators"), rule="ownership-delivery", floor=12,
+              exempt_extra={("ham_heis", "kron"): "4x4 two-site building block; the row range applies to the embedding (ikron), which receives it",
+                            ("ham_j1j2", "kron"): "two-site building block; the row range applies to the embedding",
+                            ("ham_mbl", "kron"): "two-site building block; the row range applies to the embedding"},
+              description="from every function that accepts a row-ownership range, each call whose resolved callee accepts `ownership` "
+                          "receives the caller's range (by keyword or through the keyword dict that carries it): a dropped range silently "
+                          "builds every row of the operator"),
+            kronalg.rule_ownership_guard, kronalg.rule_dispatch_sibling_args, kronalg.rule_expec_table,
+        ],
+        "explanation": (
+            "static (narrow): decides three structural necessary conditions of C15 — the row-ownership range is delivered along every "
+            "call edge of quimb/core.py and quimb/gen/operators.py whose callee accepts it and is validated / trimmed at both ends in kron; "
+            "every dense / sparse dispatcher gives both sibling implementations the same arguments; the expectation table is total, looked "
+            "up in key order, and its dense and sparse entries use their operands in the same roles. Does NOT decide the Kronecker / "
+            "embedding / partial-trace algebra itself (mixed-radix slicing arithmetic, permutations, adjointness), which quantifies over "
+            "run-time values."
         ),
         "assumptions": COMMON_ASSUMPTIONS,
     },
@@ -324,6 +345,7 @@ REGISTRY = {
 TECHNIQUE = {
     "C07": "static analysis: dominance-style rule (staleness check before every memo access), writers-must-invalidate rule, copy completeness, static evaluation of the gate registries vs convenience methods",
     "C06": "static analysis: closed-vocabulary rule for gate modes, structural rewiring (reindex-before-attach) rule, option delivery (OPTFLOW) over the gate entry points, effect analysis",
+    "C15": "static analysis: option delivery (OPTFLOW) of the row-ownership range, dispatcher sibling-argument comparison, decision-table extraction of the expectation table",
     "C19": "static analysis: decision-table extraction of the symmetry dispatchers, kernel-name/arity agreement, sibling comparison of strided kernels and launchers",
     "C17": "static analysis: static evaluation of the backend registries, interface + use-or-reject rules, consistency of the dense routine table",
     "C14": "static analysis: sibling comparison of accumulator readers (unit convention) inside each BP class, delivery of sign/exponent to every combining call, pairing rule for normalisers, effect analysis",
@@ -344,8 +366,6 @@ TECHNIQUE = {
 LEVEL_TEXT = {}
 _PENDING = "check not built yet in this session (planned per DESIGN.md)"
 NOT_APPLICABLE = {
-    "C15": "algebraic identity over runtime values (mixed-radix slicing arithmetic, permutations, sparse formats); "
-           "no structural clause whose violation is silent — see DESIGN.md §3 C15",
     "C20": "every clause is a numerical identity / bound / invariance of returned values; no table, pairing or "
            "ownership structure in the code implies any of them — see DESIGN.md §3 C20",
 }
